@@ -126,9 +126,8 @@ macro_rules! array_char {
         let shape = array_parse_shape!(ndim, _string);
 
         // get array elements
-        let elems = string
-            .replace("[", "").replace("]", "").replace("'", "")
-            .split(",")
+        let elems = string_elems
+            .into_iter()
             .map(|e| e.parse().unwrap())
             .collect::<Vec<_>>();
 
